@@ -344,3 +344,6 @@ Proof.
     destruct (owner_of b o) eqn:OO; [|discriminate].
     destruct (owner_of_Some _ _ _ OO) as (j & NJ & _). congruence.
 Qed.
+
+Lemma btrans_clear_aff b : btrans b (clear_aff b).
+Proof. split; [reflexivity|]. intros IB. split; [exact IB|]. intros o x OW. left. exact OW. Qed.
